@@ -25,11 +25,13 @@ func init() {
 			"(R-EVREMAP) calAndSetEventNode rebuilds node array and parent table entry by entry in step (an event node mirrors its real node), records every appended node's position in the index table keyed by its original index, and relabels scIdx/parents through the right table under the -1 guards: the parent table Dump reads in event mode is an exact relabelling. " +
 			"(R-FMTDATA) in every fmt formatting call of the package the format string is built from constants and integers only, program text is an operand; (R-INTBASE) every integer parse of the lexer/parser reads base 10. Constants of Go types the lexer cannot produce (ConstantMap floats, maps folded from user operators) are outside the property's literal domain. NOT decided: that the rebuilt text equals the program on every binding (fast-operator layout, folded constants), idempotence of dump/compile.",
 		Run:       runC13,
-		Witnesses: append(append([]Witness{}, delWitnessesC13...), c13Witnesses...),
+		Witnesses: append(append(append([]Witness{}, delWitnessesC13...), piecewiseListWitnesses...), c13Witnesses...),
 	})
 }
 
 func runC13(w *World, r *Report) {
+	// the dumped text compiles again only if the program respects the limits Compile enforces on source text
+	ruleOrder(w, r)
 	ruleCodec(w, r)
 	ruleLeafTypes(w, r)
 	ruleIfLayout(w, r)
@@ -373,19 +375,37 @@ func ruleLeafTypes(w *World, r *Report) {
 			continue
 		}
 		_ = pred
+		// what one iteration writes for the element: the writes of the blocks every iteration passes through, in
+		// order (one WriteString of a concatenation, or the same text in pieces)
+		type part struct {
+			call *ssa.Call
+			text string
+			form string
+		}
+		var parts []part
+		elemTC := &termCtx{leaf: func(v ssa.Value) string {
+			if _, _, ok := rangeElemOfAny(v, c.val); ok {
+				return "E"
+			}
+			return ""
+		}}
 		for _, ref := range referrers(sb) {
 			wc, ok := ref.(*ssa.Call)
 			if !ok {
 				continue
 			}
-			switch calleeFullName(&wc.Call) {
-			case "(*strings.Builder).WriteRune":
+			callee := calleeFullName(&wc.Call)
+			blk := wc.Block()
+			everyIter := edgeDominates(hdr, 0, blk) && loopVisitsAll(hdr, blk)
+			switch callee {
+			case "(*strings.Builder).WriteRune", "(*strings.Builder).WriteByte":
 				rn, okr := constInt(wc.Call.Args[1])
 				if !okr {
 					continue
 				}
-				blk := wc.Block()
 				switch {
+				case everyIter && callee == "(*strings.Builder).WriteByte", everyIter && lt == "[]string" && rn == '"':
+					parts = append(parts, part{call: wc, text: fmt.Sprintf("%q", string(rune(rn)))})
 				case edgeDominates(hdr, 0, blk):
 					sep = append(sep, rn)
 				case edgeDominates(hdr, 1, blk):
@@ -395,29 +415,46 @@ func ruleLeafTypes(w *World, r *Report) {
 				}
 			case "(*strings.Builder).WriteString":
 				arg := wc.Call.Args[1]
-				tc := &termCtx{leaf: func(v ssa.Value) string {
-					if _, _, ok := rangeElemOfAny(v, c.val); ok {
-						return "E"
+				if !everyIter {
+					if edgeDominates(hdr, 0, blk) {
+						elemDesc = "element not written on every iteration"
 					}
-					return ""
-				}}
-				if !edgeDominates(hdr, 0, wc.Block()) || !loopVisitsAll(hdr, wc.Block()) {
-					elemDesc = "element not written on every iteration"
 					continue
 				}
-				if lt == "[]string" {
-					elemDesc = tc.term(arg)
-					elemOK = elemDesc == `(("\"" ++ E) ++ "\"")`
-				} else {
-					if fc, ok := arg.(*ssa.Call); ok && calleeFullName(&fc.Call) == "strconv.FormatInt" {
-						base, _ := constInt(fc.Call.Args[1])
-						_, _, isElem := rangeElemOfAny(fc.Call.Args[0], c.val)
-						elemDesc = fmt.Sprintf("FormatInt(E, %d)", base)
-						elemOK = base == 10 && isElem
-					} else {
-						elemDesc = describe(arg)
+				p := part{call: wc, text: elemTC.term(arg)}
+				if fc, ok := arg.(*ssa.Call); ok && calleeFullName(&fc.Call) == "strconv.FormatInt" {
+					base, _ := constInt(fc.Call.Args[1])
+					_, _, isElem := rangeElemOfAny(fc.Call.Args[0], c.val)
+					p.form = fmt.Sprintf("FormatInt(E, %d)", base)
+					if !(base == 10 && isElem) {
+						p.form += " (wrong)"
 					}
 				}
+				parts = append(parts, p)
+			}
+		}
+		sort.SliceStable(parts, func(i, j int) bool {
+			a, b := parts[i].call, parts[j].call
+			if a.Block() == b.Block() {
+				return instrIndex(a) < instrIndex(b)
+			}
+			return a.Block().Dominates(b.Block())
+		})
+		if len(parts) > 0 {
+			var flat []string
+			for _, p := range parts {
+				flat = append(flat, strings.NewReplacer("(", "", ")", "").Replace(p.text))
+			}
+			joined := strings.Join(flat, " ++ ")
+			if lt == "[]string" {
+				elemDesc = joined
+				elemOK = joined == `"\"" ++ E ++ "\""`
+			} else {
+				elemDesc = parts[0].form
+				if elemDesc == "" {
+					elemDesc = joined
+				}
+				elemOK = len(parts) == 1 && parts[0].form == "FormatInt(E, 10)"
 			}
 		}
 		// the separator is written only between elements (index != 0)
